@@ -17,6 +17,7 @@ CONFIG = {
                  "ptt.addBoardRecord (through ptt.NewBoard/mNewbrd; the only caller of SubstituteRecord; index expression regenerated)",
                  "request layer: cmsys.GetRecord (Eq confirmation; the search itself is C06's model, reused), ptt.Recommend from the lookup on (doAddRecommend -> ModifyDirLite), bbs.DeleteArticles (ToFilename, FindArticleStartIdx, one-record window, article-id confirmation, ptt.DeleteArticles -> DeleteRecord), ptt.EditPost / ptt.CrossPost lookup (hit/miss); confirmation guards regenerated",
                  "cmbbs.PasswdUpdate / PasswdUpdatePasswd / PasswdUpdateEmail / PasswdQuery / PasswdQueryPasswd / PasswdQueryUserLevel (uid guard and UID.IsValid bounds regenerated; field offsets from the type checker)",
+                 "cache.SetUMoney / DeUMoney -> passwdUpdateMoney (the 4-byte Money field; batches in any order), ptt.pwcuStart … pwcuEnd (session read-modify-write of a user record through ptt.NewBoard -> groupOp -> pwcuBitEnableLevel; the user-id comparison regenerated)",
                  "cache.reloadCacheLoadBottom / cache.SetBottomTotal (count guards regenerated) / cache.GetBTotalWithRetry cold path / ptt.LoadBottomArticles"],
     "assumptions": [
         "open/flock/fcntl/write do not fail for environmental reasons (disk full, permissions); only argument-provoked errors are modelled",
@@ -24,6 +25,8 @@ CONFIG = {
         "GetRecords is driven with n <= 10^6 (it allocates capacity n up front)",
         "callers layer: the board cache agrees with .BRD (reloaded after every reset); at most one vacated .BRD slot at a time (with several, cache.GetBid(\"\") picks one by bisection: C11); the board record NewBoard builds is predicted by the harness for BMs=nil/attr=0/level=0 and carried in the op line (its content is C12); the board whose .DIR.bottom is read has a non-empty .DIR (so one read makes it warm)",
         "request layer: the cached article count agrees with .DIR (reload after every reset); the index is ascending by create-time (as the search assumes; the theorems do not need it); the permission checks of the callers pass (SYSOP-level user); the article file's mtime after the comment is an input (clock) carried in the op line; the article file of a delete-marked entry is not on disk under its marked name (a comment on it fails); EditPost/CrossPost are driven with absent names only (hit/miss)",
+        "concurrent money updates: each single update (open, seek, write, close on its own descriptor) is atomic with respect to the others - an assumption about the code, checked by the stress batches (distinct uids per batch), not proved; the model is the sequential fold in any order",
+        "session read-modify-write: driven through the one exported path (NewBoard with an invalid board name -> groupOp -> pwcuBitEnableLevel); pwcuBitEnableLevel does not change the level today (`_ = pwcuEnableBit(...)`), the write-back only syncs Money from the SHM cache, whose value is an input carried in the op line",
         ".PASSWDS accessors: record images are canonical encodings (bool fields 0/1); the accessors never look at the file length, so on a file shorter than MAX_USERS records a valid uid extends it (mirrored; the length clause is stated for a full file)",
         ".DIR.bottom with more than 5 records is outside the property: SetBottomTotal then unlinks the file by design (pttbbs sanity rule) - mirrored and compared, not judged",
     ],
